@@ -28,6 +28,11 @@ fn main() {
                 &args[6],
             );
         }
+        Some("print-child") if args.len() == 7 => {
+            let on = |s: &str| -> Option<usize> { if s == "-" { None } else { s.parse().ok() } };
+            let inp = replay::unhex(&args[2]);
+            gen::print_child(&inp, common::Opts { ecl: on(&args[3]), mode: on(&args[4]), version: on(&args[5]), mask: on(&args[6]) });
+        }
         Some("rerun") if args.len() >= 3 => {
             // prints the protocol line of a recorded case with the implementation's current result
             match replay::rerun(&args[2..].join(" ")) {
